@@ -4,7 +4,7 @@
    configuration c and driven by the ARBITRARY event list evs (reachable states = states of runs). *)
 From Coq Require Import NArith List Bool.
 From AV Require Import Gen.WsConnConsts Model.WsConn Proofs.WsConnProofs Proofs.WsConnProofs2 Proofs.WsConnProofs3
-  Proofs.WsConnTimers Proofs.WsConnLive Proofs.WsConnResp.
+  Proofs.WsConnTimers Proofs.WsConnLive Proofs.WsConnResp Proofs.WsConnCodes.
 Import ListNotations.
 Open Scope N_scope.
 
@@ -82,6 +82,29 @@ Theorem C05_internal_codes_allowed :
   In code_protocol_error close_codes_allowed /\ In code_invalid_payload close_codes_allowed /\ In code_normal close_codes_allowed.
 Proof. vm_compute. intuition. Qed.
 Print Assumptions C05_internal_codes_allowed.
+
+(* EVERY close code the library chooses by itself -- [library_close_codes] is regenerated on every run from the sources
+   of the whole library (tests excluded): the code argument at every call site of _fail_connection / sendCloseFrame /
+   sendClose and of every function that passes its own code parameter on to them (e.g. the WAMP transport's _bailout),
+   plus their declared defaults; a call site whose code is not a constant, a parameter passed on, None or the peer's
+   accepted code makes the translator fail.  All of them may legally appear on the wire, are accepted by the library's
+   own onCloseFrame and are in CLOSE_STATUS_CODES_ALLOWED; the codes the model uses (protocol error, invalid payload,
+   onConnect raising) are among them. *)
+Theorem C05_library_close_codes_wire_legal : Forall wire_legal library_close_codes.
+Proof. exact library_codes_wire_legal. Qed.
+Print Assumptions C05_library_close_codes_wire_legal.
+
+Theorem C05_library_close_codes_allowed :
+  Forall (fun cd => In cd close_codes_allowed) library_close_codes /\
+  Forall (fun cd => close_code_invalid cd = false) library_close_codes.
+Proof. exact (conj library_codes_allowed library_codes_accepted). Qed.
+Print Assumptions C05_library_close_codes_allowed.
+
+Theorem C05_model_codes_are_library_codes :
+  In code_onconnect_failed library_close_codes /\ In code_protocol_error library_close_codes /\
+  In code_invalid_payload library_close_codes.
+Proof. exact model_codes_in_library. Qed.
+Print Assumptions C05_model_codes_are_library_codes.
 
 (* ---- clean only if both close frames travelled; then code/reason are the peer's ----
    [lastPeerClose] is the model's ghost record of the last close frame that reached onCloseFrame
